@@ -61,6 +61,10 @@ def scenarios(tier):
         sc.append(dict(name='set k3 || open cached', backend=b, prior=P1, actors=[W(('set', 'k3', 'new3')), O(True)]))
         sc.append(dict(name='empty store: set k3 || open cached', backend=b, prior=[], actors=[W(('set', 'k3', 'new3')), O(True)]))
         sc.append(dict(name='empty store: set k2 || set k3', backend=b, prior=[], actors=[W(('set', 'k2', 'new2')), W(('set', 'k3', 'new3'))]))
+        sc.append(dict(name='failing set k1 || get k1', backend=b, prior=P1,
+                       actors=[dict(role='faulty', ops=[('set', 'k1', '<UNENCODABLE>')], cached=False), R(('get', 'k1'))]))
+        sc.append(dict(name='failing set k9 || set k3', backend=b, prior=P1,
+                       actors=[dict(role='faulty', ops=[('set', 'k9', '<UNENCODABLE>')], cached=False), W(('set', 'k3', 'new3'))]))
         # writers on distinct keys: multi-key writers, a deleter next to a writer, cache-level dump next to a bulk load
         P2 = P1 + [('set', 'k2', 'old2')]
         sc.append(dict(name='update k2,k3 || update k4,k5', backend=b, prior=P1,
@@ -81,6 +85,11 @@ def scenarios(tier):
         sc.append(dict(name='overwrite k1 || get k1', backend=b, prior=P1, actors=[W(('set', 'k1', 'new1')), R(('get', 'k1'))]))
         sc.append(dict(name='set k3 || open cached', backend=b, prior=P1, actors=[W(('set', 'k3', 'new3')), O(True)]))
         sc.append(dict(name='set k3 || open direct', backend=b, prior=P1, actors=[W(('set', 'k3', 'new3')), O(False)]))
+        # a store that fails (the value cannot be encoded) next to a reader / next to a writer: the failure must stay local
+        sc.append(dict(name='failing set k9 || items', backend=b, prior=P1,
+                       actors=[dict(role='faulty', ops=[('set', 'k9', '<UNENCODABLE>')], cached=False), R(('items',))]))
+        sc.append(dict(name='failing set k9 || get k1', backend=b, prior=P1,
+                       actors=[dict(role='faulty', ops=[('set', 'k9', '<UNENCODABLE>')], cached=False), R(('get', 'k1'))]))
         # the archive exists but is still empty (state right after creation)
         sc.append(dict(name='empty store: set k3 || open cached', backend=b, prior=[], actors=[W(('set', 'k3', 'new3')), O(True)]))
         sc.append(dict(name='empty store: set k3 || items', backend=b, prior=[], actors=[W(('set', 'k3', 'new3')), R(('items',))]))
